@@ -395,87 +395,49 @@ theorem bindFanDevs_mkFans_channel (sel : FanSel) (path : String) (n i : Nat) (c
       rw [hcast] at h
       simp [this, h]
 
-/-! ## sensor binding -/
+/-! ## sensor binding
+
+  (Before /repo commit 218c45c a matching controller without the key made the loop panic; the
+  lemmas below are about the fixed loop, which skips such a controller.) -/
+
+/-- the controllers the loop reacts to: platform matches AND the key is present -/
+def sensorHit (m : String → String → Bool) (sel : SensorSel) (c : Chip) : Bool :=
+  m sel.platform c.platform && (lookupTemp c.temps sel.index).isSome
+
+theorem sensorHit_iff {m : String → String → Bool} {sel : SensorSel} {c : Chip} :
+    sensorHit m sel c = true ↔
+      m sel.platform c.platform = true ∧ ∃ p, lookupTemp c.temps sel.index = some p := by
+  simp [sensorHit, Option.isSome_iff_exists]
 
 theorem bindSensorLoop_filter (m : String → String → Bool) (sel : SensorSel) (chips : List Chip)
     (acc : Bool × String) :
-    bindSensorLoop m sel chips acc =
-      bindSensorLoop m sel (chips.filter fun c => m sel.platform c.platform) acc := by
+    bindSensorLoop m sel chips acc = bindSensorLoop m sel (chips.filter (sensorHit m sel)) acc := by
   induction chips generalizing acc with
   | nil => rfl
   | cons c cs ih =>
     by_cases hm : m sel.platform c.platform = true
-    · rw [show (c :: cs).filter (fun c => m sel.platform c.platform) = c :: cs.filter (fun c => m sel.platform c.platform) from by simp [hm]]
-      unfold bindSensorLoop
-      simp only [hm, if_true]
-      split
-      · rfl
-      · exact ih _
-    · rw [show (c :: cs).filter (fun c => m sel.platform c.platform) = cs.filter (fun c => m sel.platform c.platform) from by simp [hm]]
-      conv => lhs; unfold bindSensorLoop
+    · cases hl : lookupTemp c.temps sel.index with
+      | none =>
+        have hh : sensorHit m sel c = false := by simp [sensorHit, hl]
+        rw [show (c :: cs).filter (sensorHit m sel) = cs.filter (sensorHit m sel) from by simp [hh]]
+        conv => lhs; rw [bindSensorLoop]
+        simp only [hm, if_true, hl]
+        exact ih _
+      | some p =>
+        have hh : sensorHit m sel c = true := by simp [sensorHit, hl, hm]
+        rw [show (c :: cs).filter (sensorHit m sel) = c :: cs.filter (sensorHit m sel) from by simp [hh]]
+        rw [bindSensorLoop, bindSensorLoop]
+        simp only [hm, if_true, hl]
+        exact ih _
+    · have hh : sensorHit m sel c = false := by simp [sensorHit, hm]
+      rw [show (c :: cs).filter (sensorHit m sel) = cs.filter (sensorHit m sel) from by simp [hh]]
+      conv => lhs; rw [bindSensorLoop]
       simp only [hm]
       exact ih _
 
-theorem bindSensor_filter (m : String → String → Bool) (sel : SensorSel) (chips : List Chip) :
-    bindSensor m chips sel = bindSensor m (chips.filter fun c => m sel.platform c.platform) sel := by
-  unfold bindSensor; rw [bindSensorLoop_filter]
-
-/-- at most one controller matches: enumeration order is irrelevant (the panic included) -/
-theorem bindSensor_perm {m : String → String → Bool} {chips chips' : List Chip} {sel : SensorSel}
-    (hp : chips.Perm chips')
-    (h1 : (chips.filter fun c => m sel.platform c.platform).length ≤ 1) :
-    bindSensor m chips sel = bindSensor m chips' sel := by
-  rw [bindSensor_filter m sel chips, bindSensor_filter m sel chips']
-  have hpf := hp.filter (fun c => m sel.platform c.platform)
-  generalize chips.filter (fun c => m sel.platform c.platform) = l at hpf h1
-  generalize chips'.filter (fun c => m sel.platform c.platform) = l' at hpf
-  match l, h1 with
-  | [], _ => rw [List.nil_perm.1 hpf]
-  | [c], _ => rw [List.singleton_perm.1 hpf]
-  | _ :: _ :: _, h => simp at h
-
-theorem bindSensorLoop_no_match {m : String → String → Bool} {sel : SensorSel} {chips : List Chip}
-    (acc : Bool × String) (h : ∀ c ∈ chips, m sel.platform c.platform = false) :
-    bindSensorLoop m sel chips acc = .ok acc := by
-  induction chips with
-  | nil => rfl
-  | cons c cs ih =>
-    unfold bindSensorLoop
-    simp only [h c List.mem_cons_self]
-    exact ih (fun c' hc' => h c' (List.mem_cons_of_mem _ hc'))
-
-/-- a matching controller without the key: nil-pointer dereference, wherever it stands -/
-theorem bindSensorLoop_panic {m : String → String → Bool} {sel : SensorSel} {chips : List Chip}
-    (acc : Bool × String)
-    (h : ∃ c ∈ chips, m sel.platform c.platform = true ∧ lookupTemp c.temps sel.index = none) :
-    bindSensorLoop m sel chips acc = .panic "nil" := by
-  induction chips generalizing acc with
-  | nil => obtain ⟨c, hc, _⟩ := h; cases hc
-  | cons c cs ih =>
-    unfold bindSensorLoop
-    by_cases hm : m sel.platform c.platform = true
-    · simp only [hm, if_true]
-      cases hl : lookupTemp c.temps sel.index with
-      | none => rfl
-      | some p =>
-        simp only
-        apply ih
-        obtain ⟨c', hc', hm', hl'⟩ := h
-        rcases List.mem_cons.1 hc' with e | e
-        · subst e; rw [hl] at hl'; cases hl'
-        · exact ⟨c', e, hm', hl'⟩
-    · simp only [hm]
-      apply ih
-      obtain ⟨c', hc', hm', hl'⟩ := h
-      rcases List.mem_cons.1 hc' with e | e
-      · subst e; exact absurd hm' hm
-      · exact ⟨c', e, hm', hl'⟩
-
-/-- a list of matching controllers that all have the key: the LAST one wins -/
-theorem bindSensorLoop_all_match {m : String → String → Bool} {sel : SensorSel} {l : List Chip}
-    (acc : Bool × String)
-    (hm : ∀ c ∈ l, m sel.platform c.platform = true)
-    (h : ∀ c ∈ l, (lookupTemp c.temps sel.index).isSome = true) :
+/-- a list of hits: the LAST one wins -/
+theorem bindSensorLoop_all_hit {m : String → String → Bool} {sel : SensorSel} {l : List Chip}
+    (acc : Bool × String) (h : ∀ c ∈ l, sensorHit m sel c = true) :
     bindSensorLoop m sel l acc =
       .ok (match l.getLast? with
            | none => acc
@@ -483,49 +445,111 @@ theorem bindSensorLoop_all_match {m : String → String → Bool} {sel : SensorS
   induction l generalizing acc with
   | nil => rfl
   | cons c cs ih =>
-    have ih' := fun acc => ih acc (fun c' hc' => hm c' (List.mem_cons_of_mem _ hc'))
-      (fun c' hc' => h c' (List.mem_cons_of_mem _ hc'))
-    have hs := h c List.mem_cons_self
+    have ih' := fun acc => ih acc (fun c' hc' => h c' (List.mem_cons_of_mem _ hc'))
+    obtain ⟨hm, p, hl⟩ := sensorHit_iff.1 (h c List.mem_cons_self)
     rw [bindSensorLoop]
-    simp only [hm c List.mem_cons_self, if_true]
-    cases hl : lookupTemp c.temps sel.index with
-    | none => simp [hl] at hs
-    | some p =>
-      simp only [ih']
-      cases cs with
-      | nil => simp [hl]
-      | cons c' l =>
-        rw [List.getLast?_cons_cons]
-        cases hg : (c' :: l).getLast? with
-        | none => simp at hg
-        | some x => rfl
+    simp only [hm, if_true, hl, ih']
+    cases cs with
+    | nil => simp [hl]
+    | cons c' l =>
+      rw [List.getLast?_cons_cons]
+      cases hg : (c' :: l).getLast? with
+      | none => simp at hg
+      | some x => rfl
 
-/-- every matching controller has the key: no panic; the LAST matching controller wins -/
-theorem bindSensorLoop_ok {m : String → String → Bool} {sel : SensorSel} {chips : List Chip}
-    (acc : Bool × String)
-    (h : ∀ c ∈ chips, m sel.platform c.platform = true → (lookupTemp c.temps sel.index).isSome = true) :
+/-- closed form of the loop: no panic, no error; the last hit (if any) decides -/
+theorem bindSensorLoop_eq (m : String → String → Bool) (sel : SensorSel) (chips : List Chip)
+    (acc : Bool × String) :
     bindSensorLoop m sel chips acc =
-      .ok (match (chips.filter fun c => m sel.platform c.platform).getLast? with
+      .ok (match (chips.filter (sensorHit m sel)).getLast? with
            | none => acc
            | some c => (true, (lookupTemp c.temps sel.index).getD "")) := by
   rw [bindSensorLoop_filter]
-  apply bindSensorLoop_all_match
-  · intro c hc
-    have := (List.mem_filter.1 hc).2
-    simpa using this
-  · intro c hc
-    obtain ⟨a, b⟩ := List.mem_filter.1 hc
-    exact h c a (by simpa using b)
+  exact bindSensorLoop_all_hit acc (fun c hc => (List.mem_filter.1 hc).2)
+
+/-- closed form of `bindSensor` -/
+theorem bindSensor_eq (m : String → String → Bool) (sel : SensorSel) (chips : List Chip) :
+    bindSensor m chips sel =
+      match (chips.filter (sensorHit m sel)).getLast? with
+      | none => .err "no-hwmon-device"
+      | some c => .ok ((lookupTemp c.temps sel.index).getD "") := by
+  unfold bindSensor
+  rw [bindSensorLoop_eq]
+  cases (chips.filter (sensorHit m sel)).getLast? <;> rfl
+
+theorem bindSensor_ne_panic (m : String → String → Bool) (chips : List Chip) (sel : SensorSel) (s : String) :
+    bindSensor m chips sel ≠ .panic s := by
+  rw [bindSensor_eq]
+  cases (chips.filter (sensorHit m sel)).getLast? <;> simp
+
+/-- no matching controller has the key (in particular: no controller matches): an error -/
+theorem bindSensor_err_of_no_hit {m : String → String → Bool} {sel : SensorSel} {chips : List Chip}
+    (h : ∀ c ∈ chips, m sel.platform c.platform = true → lookupTemp c.temps sel.index = none) :
+    bindSensor m chips sel = .err "no-hwmon-device" := by
+  have : chips.filter (sensorHit m sel) = [] := by
+    rw [List.filter_eq_nil_iff]
+    intro c hc hh
+    obtain ⟨hm, p, hp⟩ := sensorHit_iff.1 hh
+    rw [h c hc hm] at hp; cases hp
+  rw [bindSensor_eq, this]; rfl
 
 theorem bindSensor_err_of_no_match {m : String → String → Bool} {sel : SensorSel} {chips : List Chip}
     (h : ∀ c ∈ chips, m sel.platform c.platform = false) :
-    bindSensor m chips sel = .err "no-hwmon-device" := by
-  simp [bindSensor, bindSensorLoop_no_match _ h]
+    bindSensor m chips sel = .err "no-hwmon-device" :=
+  bindSensor_err_of_no_hit (fun c hc hm => by rw [h c hc] at hm; cases hm)
 
-theorem bindSensor_panic_of_missing {m : String → String → Bool} {sel : SensorSel} {chips : List Chip}
-    (h : ∃ c ∈ chips, m sel.platform c.platform = true ∧ lookupTemp c.temps sel.index = none) :
-    bindSensor m chips sel = .panic "nil" := by
-  simp [bindSensor, bindSensorLoop_panic _ h]
+/-- whatever is bound is the input of a matching controller that has the key -/
+theorem bindSensor_sound {m : String → String → Bool} {sel : SensorSel} {chips : List Chip} {p : String}
+    (h : bindSensor m chips sel = .ok p) :
+    ∃ c ∈ chips, m sel.platform c.platform = true ∧ lookupTemp c.temps sel.index = some p := by
+  rw [bindSensor_eq] at h
+  cases hl : (chips.filter (sensorHit m sel)).getLast? with
+  | none => rw [hl] at h; cases h
+  | some c =>
+    rw [hl] at h
+    obtain ⟨hc, hh⟩ := List.mem_filter.1 (List.mem_of_getLast? hl)
+    obtain ⟨hm, q, hq⟩ := sensorHit_iff.1 hh
+    refine ⟨c, hc, hm, ?_⟩
+    simp only [hq, Option.getD_some] at h
+    cases h
+    exact hq
+
+/-- some matching controller has the key: `.ok`, with the input of such a controller (the last
+    one in enumeration order) -/
+theorem bindSensor_ok_of_some_present {m : String → String → Bool} {chips : List Chip} {sel : SensorSel}
+    (hex : ∃ c ∈ chips, m sel.platform c.platform = true ∧ (lookupTemp c.temps sel.index).isSome = true) :
+    ∃ c ∈ chips, m sel.platform c.platform = true ∧ ∃ p, lookupTemp c.temps sel.index = some p ∧
+      bindSensor m chips sel = .ok p := by
+  rw [bindSensor_eq]
+  cases hl : (chips.filter (sensorHit m sel)).getLast? with
+  | none =>
+    rw [List.getLast?_eq_none_iff] at hl
+    obtain ⟨c, hc, hm, hs⟩ := hex
+    have : c ∈ chips.filter (sensorHit m sel) :=
+      List.mem_filter.2 ⟨hc, by simp [sensorHit, hm, hs]⟩
+    rw [hl] at this; cases this
+  | some c =>
+    obtain ⟨hc, hh⟩ := List.mem_filter.1 (List.mem_of_getLast? hl)
+    obtain ⟨hm, q, hq⟩ := sensorHit_iff.1 hh
+    exact ⟨c, hc, hm, q, hq, by simp [hq]⟩
+
+/-- exactly one matching controller HAS the key (other matching controllers, e.g. fan-only
+    ones, are skipped): the sensor reads that controller's input -/
+theorem bindSensor_of_unique_hit {m : String → String → Bool} {chips : List Chip} {sel : SensorSel}
+    {c : Chip} {p : String}
+    (hc : c ∈ chips) (hm : m sel.platform c.platform = true)
+    (hp : lookupTemp c.temps sel.index = some p)
+    (huniq : ∀ c' ∈ chips, m sel.platform c'.platform = true →
+      (lookupTemp c'.temps sel.index).isSome = true → c' = c) :
+    bindSensor m chips sel = .ok p := by
+  obtain ⟨c', hc', hm', q, hq, hb⟩ :=
+    bindSensor_ok_of_some_present (m := m) (chips := chips) (sel := sel) ⟨c, hc, hm, by simp [hp]⟩
+  have : c' = c := huniq c' hc' hm' (by simp [hq])
+  subst this
+  rw [hb]
+  have : some q = some p := by rw [← hq, hp]
+  cases this
+  rfl
 
 /-- exactly one controller matches and it has the key -/
 theorem bindSensor_of_unique_chip {m : String → String → Bool} {chips : List Chip} {sel : SensorSel}
@@ -533,48 +557,37 @@ theorem bindSensor_of_unique_chip {m : String → String → Bool} {chips : List
     (hc : c ∈ chips) (hm : m sel.platform c.platform = true)
     (huniq : ∀ c' ∈ chips, m sel.platform c'.platform = true → c' = c)
     (hp : lookupTemp c.temps sel.index = some p) :
-    bindSensor m chips sel = .ok p := by
-  have hall : ∀ c' ∈ chips, m sel.platform c'.platform = true →
-      (lookupTemp c'.temps sel.index).isSome = true := by
-    intro c' hc' hm'
-    rw [huniq c' hc' hm', hp]; rfl
-  have hmem : c ∈ chips.filter fun c => m sel.platform c.platform := List.mem_filter.2 ⟨hc, by simpa using hm⟩
-  unfold bindSensor
-  rw [bindSensorLoop_ok _ hall]
-  cases hl : (chips.filter fun c => m sel.platform c.platform).getLast? with
-  | none =>
-    rw [List.getLast?_eq_none_iff] at hl
-    rw [hl] at hmem; cases hmem
-  | some c' =>
-    have hc' := List.mem_of_getLast? hl
-    obtain ⟨a, b⟩ := List.mem_filter.1 hc'
-    have : c' = c := huniq c' a (by simpa using b)
-    subst this
-    simp [hp]
+    bindSensor m chips sel = .ok p :=
+  bindSensor_of_unique_hit hc hm hp (fun c' hc' hm' _ => huniq c' hc' hm')
 
-/-- all matching controllers have the key and at least one matches: `.ok`, with the input of a
-    matching controller (the last one in enumeration order) -/
-theorem bindSensor_ok_of_all_present {m : String → String → Bool} {chips : List Chip} {sel : SensorSel}
-    (hex : ∃ c ∈ chips, m sel.platform c.platform = true)
-    (hall : ∀ c ∈ chips, m sel.platform c.platform = true → (lookupTemp c.temps sel.index).isSome = true) :
-    ∃ c ∈ chips, m sel.platform c.platform = true ∧ ∃ p, lookupTemp c.temps sel.index = some p ∧
-      bindSensor m chips sel = .ok p := by
-  unfold bindSensor
-  rw [bindSensorLoop_ok _ hall]
-  cases hl : (chips.filter fun c => m sel.platform c.platform).getLast? with
-  | none =>
-    rw [List.getLast?_eq_none_iff] at hl
-    obtain ⟨c, hc, hm⟩ := hex
-    have : c ∈ chips.filter fun c => m sel.platform c.platform := List.mem_filter.2 ⟨hc, by simpa using hm⟩
-    rw [hl] at this; cases this
-  | some c' =>
-    have hc' := List.mem_of_getLast? hl
-    obtain ⟨a, b⟩ := List.mem_filter.1 hc'
-    have hb : m sel.platform c'.platform = true := by simpa using b
-    have hs := hall c' a hb
-    cases hp : lookupTemp c'.temps sel.index with
-    | none => simp [hp] at hs
-    | some p => exact ⟨c', a, hb, p, hp, by simp [hp]⟩
+/-- at most one matching controller has the key: enumeration order is irrelevant -/
+theorem bindSensor_perm_hit {m : String → String → Bool} {chips chips' : List Chip} {sel : SensorSel}
+    (hp : chips.Perm chips') (h1 : (chips.filter (sensorHit m sel)).length ≤ 1) :
+    bindSensor m chips sel = bindSensor m chips' sel := by
+  rw [bindSensor_eq, bindSensor_eq]
+  have hpf := hp.filter (sensorHit m sel)
+  generalize chips.filter (sensorHit m sel) = l at hpf h1
+  generalize chips'.filter (sensorHit m sel) = l' at hpf
+  match l, h1 with
+  | [], _ => rw [List.nil_perm.1 hpf]
+  | [c], _ => rw [List.singleton_perm.1 hpf]
+  | _ :: _ :: _, h => simp at h
+
+/-- at most one controller matches: enumeration order is irrelevant -/
+theorem bindSensor_perm {m : String → String → Bool} {chips chips' : List Chip} {sel : SensorSel}
+    (hp : chips.Perm chips')
+    (h1 : (chips.filter fun c => m sel.platform c.platform).length ≤ 1) :
+    bindSensor m chips sel = bindSensor m chips' sel := by
+  apply bindSensor_perm_hit hp
+  have : chips.filter (sensorHit m sel) =
+      (chips.filter fun c => m sel.platform c.platform).filter
+        (fun c => (lookupTemp c.temps sel.index).isSome) := by
+    rw [List.filter_filter]
+    congr 1
+    funext c
+    simp [sensorHit, Bool.and_comm]
+  rw [this]
+  exact Nat.le_trans (List.length_filter_le _ _) h1
 
 end Hwmon
 end Fan2go
